@@ -60,6 +60,13 @@ func LayerConvertWithLayerAndCommonOptsFunc(opts map[digest.Digest][]estargz.Opt
 // Otherwise "containerd.io/snapshot/stargz/toc.digest" annotation will be lost,
 // because the Docker media type does not support layer annotations.
 func LayerConvertFunc(opts ...estargz.Option) converter.ConvertFunc {
+	// explicitly copy the incoming opts parameter: the returned function is called concurrently
+	// for the layers of an image and appends to it, which must not write into the caller's
+	// backing array, see also https://github.com/containerd/stargz-snapshotter/issues/2132
+	copiedOpts := make([]estargz.Option, len(opts))
+	copy(copiedOpts, opts)
+	opts = copiedOpts
+
 	return func(ctx context.Context, cs content.Store, desc ocispec.Descriptor) (*ocispec.Descriptor, error) {
 		if !images.IsLayerType(desc.MediaType) {
 			// No conversion. No need to return an error here.
